@@ -19,10 +19,16 @@ ASSUMPTIONS = [
 ]
 CHUNK = 1
 
-COND_A = 'run_experiment(name="x", run="./x.sh")\nrun_command(name="fail", run="./fail.sh", deps=[":x"])\nrun_command(name="never", run="./n.sh")\n'
+COND_A = ('include("//defs.cond")\ninclude("local.cond")\n'
+          'run_experiment(name="x", run="./x.sh", args=[WHERE, LOCAL])\nrun_command(name="fail", run="./fail.sh", deps=[":x"])\n'
+          'run_command(name="never", run="./n.sh")\n')
 COND_AB = 'run_experiment(name="t", run="./t.sh", deps=["//a:x"], parallelizable=True)\nrun_experiment(name="u", run="./u.sh", parallelizable=True)\ngroup(name="g", deps=[":t", ":u"])\n'
 FILES = {"COND": 'combine(name="top", deps=["//a/b:t", "//a:x"])\n', "a/COND": COND_A, "a/b/COND": COND_AB,
-         "nocond/deep/readme": "x", "cond-out/a/.keep": ""}
+         "nocond/deep/readme": "x", "cond-out/a/.keep": "",
+         # include() targets: the project-rooted one must come from the root from every cwd; look-alikes in other directories
+         "defs.cond": 'WHERE = "project-wide"\n', "a/defs.cond": 'WHERE = "package-a"\n', "a/b/defs.cond": 'WHERE = "package-ab"\n',
+         "nocond/defs.cond": 'WHERE = "nocond"\n', "a/local.cond": 'LOCAL = "a-local"\n', "local.cond": 'LOCAL = "root-local"\n',
+         "a/b/local.cond": 'LOCAL = "ab-local"\n'}
 DIRS = [".", "a", "a/b", "nocond", "nocond/deep", "cond-out", "cond-out/a"]
 BEH = {"//a:fail": {"status": 256 * 3}}
 
